@@ -2222,3 +2222,99 @@ func isIntegerType(t types.Type) bool {
 	b, ok := t.Underlying().(*types.Basic)
 	return ok && b.Info()&types.IsInteger != 0
 }
+
+// checkSizerWheneverOutputSizeSet (C01 R6): the size audit only runs when the VM has a Sizer. In the
+// function of package engine that builds it (calls render.NewSizer), every path to a return - or to
+// the construction of the VM - passes NewSizer or the edge on which Config.OutputSize was tested to
+// be zero. No other configuration value may decide that a size-limited engine renders unaudited.
+func checkSizerWheneverOutputSizeSet(w *core.World, r *core.Report, rule string) {
+	n := 0
+	for _, fn := range w.FuncsIn("engine") {
+		mk := core.CallsTo(fn, "render.NewSizer")
+		if len(mk) == 0 {
+			continue
+		}
+		n++
+		r.Touch(core.QName(fn))
+		cut := core.NewCut()
+		for _, c := range mk {
+			cut.AddInstr(c.(ssa.Instruction))
+		}
+		nz := 0
+		for _, in := range allInstrs(fn) {
+			bo, ok := in.(*ssa.BinOp)
+			if !ok {
+				continue
+			}
+			x, op, c, ok := core.CmpConst(bo)
+			if !ok || c != 0 {
+				continue
+			}
+			isOS := false
+			for _, s := range core.Sources(x) {
+				if _, f, ok := core.LoadedField(s); ok && f == "OutputSize" {
+					isOS = true
+				}
+			}
+			if !isOS {
+				continue
+			}
+			switch op {
+			case token.EQL, token.LEQ:
+				cut.AddEdge(core.EdgesWhere(bo, true)...)
+				nz++
+			case token.NEQ, token.GTR:
+				cut.AddEdge(core.EdgesWhere(bo, false)...)
+				nz++
+			}
+		}
+		hit, path := core.Reach(core.Entry(fn), func(in ssa.Instruction) bool {
+			if _, ok := in.(*ssa.Return); ok {
+				return true
+			}
+			if c, ok := in.(ssa.CallInstruction); ok && core.IsCallTo(c, "vm.NewVm") {
+				return true
+			}
+			return false
+		}, cut)
+		var pos token.Pos
+		if hit != nil {
+			pos = hit.Pos()
+		}
+		r.Check(hit == nil && nz > 0, rule, core.QName(fn)+": a Sizer whenever OutputSize is set", pos, "every path passes NewSizer or the OutputSize==0 edge",
+			"an engine with an output size configured can be built without a Sizer: the final size audit never runs and Flush hands out pages of any length: "+w.PathString(path))
+	}
+	r.Floor(rule, "functions of package engine that build the Sizer", n, 1)
+}
+
+// checkLoadReadsTheStore (C11 R15, C07 R15): Persister.Load hands Deserialize the bytes that
+// db.Db.Get returned in that call - nothing remembered from an earlier Save or Load. A remembered
+// record is identified by the record key at best; the session selected on the store handle can have
+// changed in between, so a session would be given another session's state and cache.
+func checkLoadReadsTheStore(w *core.World, r *core.Report, rule, consequence string) {
+	ld := anchor(w, r, "persist", "(*Persister).Load")
+	if ld == nil {
+		return
+	}
+	n := 0
+	bad := ""
+	var badPos token.Pos
+	for _, c := range core.Calls(ld) {
+		if !strings.HasSuffix(core.CallName(c), "Persister).Deserialize") {
+			continue
+		}
+		args := core.CallArgs(c)
+		if len(args) < 2 {
+			continue
+		}
+		n++
+		for _, src := range core.Sources(args[1]) {
+			cc, idx, ok := core.ExtractOf(src)
+			if !ok || idx != 0 || core.CallName(cc) != "db.Db.Get" {
+				bad = "the bytes decoded at " + w.Pos(c.Pos()) + " derive from " + valueDesc(src)
+				badPos = c.Pos()
+			}
+		}
+	}
+	r.Check(bad == "" && n > 0, rule, "persist.(*Persister).Load: decodes what the store returned in this call", badPos, fmt.Sprintf("%d Deserialize call(s) on the result of db.Db.Get", n), consequence+bad)
+}
